@@ -117,6 +117,35 @@ theorem complete_means_untouched {V} [DecidableEq V] (yaml : Str → Option (Doc
   unfold performMerge
   simp [hy, h]
 
+
+/-- **Running init-config again changes nothing**: if the first run wrote `m`, and the parser sees in `m` the
+    old keys and the keys of the added sections, the second run answers "already complete" and writes nothing -/
+theorem second_run_is_noop {V} [DecidableEq V] (yaml : Str → Option (Doc V)) (names : List Str) (tmpl : List Line) (ex m : Str) (added : List Str)
+    (h : performMerge true yaml names tmpl ex = .written m added)
+    (hadded : ∀ d', yaml m = some d' → ∀ n ∈ added, n ∈ d'.map (·.1)) :
+    performMerge true yaml names tmpl m = .complete := by
+  obtain ⟨d, d', hd, hd', hkeep⟩ := written_keeps_settings yaml names tmpl ex m added h
+  -- what was added is exactly what was missing
+  have hmiss : added = identifyMissing true (d.map (·.1)) ((extractSections names tmpl).map (·.1)) := by
+    unfold performMerge at h
+    simp only [hd] at h
+    split at h
+    · cases h
+    · split at h
+      · cases h
+      · simp only [Outcome.written.injEq] at h; exact h.2.symm
+  apply complete_means_untouched yaml names tmpl m d' hd'
+  apply second_run_complete (d.map (·.1)) (d'.map (·.1))
+  · intro k hk
+    obtain ⟨kv, hkv, rfl⟩ := List.mem_map.mp hk
+    have := hkeep kv hkv
+    have hm := lookup_mem d' kv.1 kv.2 this
+    exact List.mem_map.mpr ⟨(kv.1, kv.2), hm, rfl⟩
+  · intro n hn
+    rw [← hmiss] at hn
+    exact hadded d' hd' n hn
+
+
 /-! ### the template regenerated from /repo -/
 
 def names : List Str := Gen.Config.linterSections.map String.toList
